@@ -296,3 +296,11 @@ where
         self.try_finish(header)
     }
 }
+
+#[cfg(noodles_verif)]
+#[doc(hidden)]
+pub mod verif_hooks {
+    //! Re-exports for verification harnesses (`--cfg noodles_verif`).
+    pub use super::container::__verif_itf8_size_of as itf8_size_of;
+    pub use super::num::{write_itf8, write_ltf8, write_uint7};
+}
